@@ -255,6 +255,117 @@ def run(ctx, chk):
     chk.rule("C03.simple", "assigned simple values decode; unassigned ones are outside the property's domain")
     nm = mirror(chk, "C03.mirror", "C03.simple", prog, eff, encs, by_byte, enumv, loader_ext)
     chk.floor("C03.mirror", "encoder byte -> decoder arm links", nm, 200)
+    # ---- the simple values an item carries are the RFC's: the serializer emits 0xE0 + the stored number (C03.offset), so
+    # the number the makers store IS the wire value
+    chk.rule("C03.simple-wire", "the item made for false / true / null / undefined carries the RFC 8949 simple value 20 / 21 / 22 / 23 "
+                                "(what cbor_build_bool, cbor_set_bool, cbor_new_null and cbor_new_undef store, evaluated for each "
+                                "argument value) - the serializer emits 0xE0 + that number")
+    import termeval
+    ctrl_off = tables.item_offsets(prog)["metadata"] + prog.field_offset("_cbor_float_ctrl_metadata", "ctrl")
+    nsw = 0
+    for fn_, argv, want, what in (("cbor_build_bool", 0, 20, "false"), ("cbor_build_bool", 1, 21, "true"),
+                                  ("cbor_new_null", None, 22, "null"), ("cbor_new_undef", None, 23, "undefined")):
+        if fn_ not in prog.funcs:
+            continue
+        g_ = prog.funcs[fn_]
+        for k_, r_ in enumerate(tables.result_states(prog, eff, fn_)):
+            d_ = r_["desc"]
+            if d_ is None:
+                continue
+            env_ = {("arg", 0): argv} if argv is not None else {}
+            # only the paths taken for this argument value (an if/else on the argument gives one path per truth value)
+            feasible = True
+            for t_, tr_, _i in r_["path"].facts:
+                try:
+                    if bool(termeval.evaluate(t_, env_, {})) != tr_:
+                        feasible = False
+                        break
+                except Exception:
+                    continue      # a condition on something else (the allocation result)
+            if not feasible:
+                continue
+            nsw += 1
+            try:
+                got = termeval.evaluate(d_["ctrl"], env_, {}) if d_["ctrl"] is not None else None
+            except Exception:
+                got = None
+            ok_ = got == want and d_["type"] == ("c", 7)
+            chk.ob("C03.simple-wire", "%s(%s) path %d: the item carries simple value %d (%s)" % (fn_, "" if argv is None else argv, k_, want, what),
+                   ok_, "%s:%d" % (g_.file, g_.line), fn=fn_, key="sw:%s:%s:%d" % (fn_, argv, k_),
+                   detail="" if ok_ else "stores %s, i.e. %s: serialized as 0x%02X where RFC 8949 has 0x%02X for %s"
+                   % (DR.fmt_term(d_["ctrl"]) if d_["ctrl"] is not None else "nothing", got, 0xE0 + (got or 0), 0xE0 + want, what))
+    if "cbor_set_bool" in prog.funcs:
+        g_ = prog.funcs["cbor_set_bool"]
+        for k_, pa_ in enumerate(cache.get("cbor_set_bool", inline_static=True)):
+            for e_ in pa_.events:
+                if e_.kind == "store" and P.ptr_key(e_.args[0]) == (("arg", 0), ctrl_off):
+                    for argv, want in ((0, 20), (1, 21)):
+                        feasible = True
+                        for t_, tr_, _i in pa_.facts:
+                            try:
+                                if bool(termeval.evaluate(t_, {("arg", 1): argv}, {})) != tr_:
+                                    feasible = False
+                                    break
+                            except Exception:
+                                continue
+                        if not feasible:
+                            continue
+                        nsw += 1
+                        try:
+                            got = termeval.evaluate(e_.args[1], {("arg", 1): argv}, {})
+                        except Exception:
+                            got = None
+                        chk.ob("C03.simple-wire", "cbor_set_bool(item, %d) path %d stores simple value %d" % (argv, k_, want), got == want,
+                               e_.ins.loc(), fn="cbor_set_bool", key="sw:set:%d:%d" % (argv, k_),
+                               detail="" if got == want else "stores %s" % got)
+    chk.floor("C03.simple-wire", "maker results evaluated", nsw, 6)
+    # ---- integer makers: the item a builder returns carries the width it is named for and the whole value
+    chk.rule("C03.int-makers", "cbor_build_uintN / cbor_build_negintN return an integer item of type UINT / NEGINT whose width is N and "
+                               "whose N-bit payload is the parameter itself (a builder that stores fewer bytes than the width it marks "
+                               "leaves the rest to the allocator, and the serializer emits them)")
+    Tt = prog.enum("cbor_type")
+    IWd = prog.enum("cbor_int_width")
+    nim = 0
+    for kind_, tname in (("uint", "CBOR_TYPE_UINT"), ("negint", "CBOR_TYPE_NEGINT")):
+        for bits_ in (8, 16, 32, 64):
+            fn_ = "cbor_build_%s%d" % (kind_, bits_)
+            if fn_ not in prog.funcs:
+                continue
+            g_ = prog.funcs[fn_]
+            for k_, r_ in enumerate(tables.result_states(prog, eff, fn_)):
+                d_ = r_["desc"]
+                if d_ is None:
+                    continue
+                nim += 1
+                pay = (d_.get("payload") or {})
+                val = pay.get("i%d" % bits_)
+                while isinstance(val, tuple) and val[0] == "cast" and val[1] in ("zext", "sext", "trunc") and False:
+                    val = val[3]
+                ok_ = d_["type"] == ("c", Tt[tname]) and d_["meta0"] == ("c", IWd["CBOR_INT_%d" % bits_]) and val == ("arg", 0) and \
+                    set(pay) == {"i%d" % bits_}
+                chk.ob("C03.int-makers", "%s path %d: a %d-bit %s holding the parameter" % (fn_, k_, bits_, kind_), ok_, "%s:%d" % (g_.file, g_.line),
+                       fn=fn_, key="intmaker:%s:%d" % (fn_, k_),
+                       detail="" if ok_ else "type %s, width %s, payload %s" % (DR.fmt_term(d_["type"]) if d_["type"] else None,
+                                                                              DR.fmt_term(d_["meta0"]) if d_["meta0"] else None,
+                                                                              {a: DR.fmt_term(b) for a, b in pay.items()}))
+    chk.floor("C03.int-makers", "integer builder results", nim, 8)
+    # ---- payload bytes are written by a byte-exact primitive
+    chk.rule("C03.payload-copy", "the only external routines that receive the output buffer are memcpy / memmove: a payload is emitted "
+                                 "byte for byte, whatever it contains (a string routine stops at the first NUL)")
+    npc = 0
+    for f_ in SR.subjects(prog):
+        BUF_ = ("arg", f_.param_index("buffer"))
+        for k_, pa_ in enumerate(cache.get(f_.name, inline_static=True)):
+            for e_ in pa_.events:
+                if e_.kind == "call" and e_.ckind == "ext" and any(isinstance(a_, tuple) and P.derives(a_, BUF_) for a_ in e_.args):
+                    npc += 1
+                    ok_ = e_.callee in ("memcpy", "memmove")
+                    chk.ob("C03.payload-copy", "%s: %s writes the payload" % (f_.name, e_.callee), ok_, e_.ins.loc(), fn=f_.name,
+                           key="paycopy:%s:%s:%d" % (f_.name, e_.callee, e_.ins.id),
+                           detail="" if ok_ else "%s is not a byte-exact copy (it interprets the bytes)" % e_.callee)
+                elif e_.kind == "memcpy" and isinstance(e_.args[0], tuple) and P.derives(e_.args[0], BUF_):
+                    npc += 1
+    chk.floor("C03.payload-copy", "bulk writes into the output buffer", npc, 2)
     # ---- the decoder accepts what the serializer can emit for a tree within the nesting limit
     chk.rule("C03.gate", "the decoding stack accepts a frame at every depth below the configured limit and refuses exactly at it, so a "
                          "tree nested exactly CBOR_MAX_STACK_SIZE deep loads back (shared with C19.gate)")
